@@ -4,6 +4,7 @@
   latter only while `run_tasks` waits for the hung tasks' grace to pass.
 -/
 import Kopf.Lemmas.C20_Advance
+import Kopf.Lemmas.C20_InvT
 set_option linter.unusedVariables false
 namespace Kopf.C20
 
@@ -373,7 +374,7 @@ theorem advance_or_wait (hr : ReachC cfg s) (hne : s.rt ≠ .exited) :
     cases hrt : s.rt with
     | waiting =>
       exfalso
-      rcases htr with h | h | h
+      rcases htr with h | h | h | h
       · exact h hrt
       · exact ha1 ⟨hrt, h⟩
       · -- the stop flag is set: the stop-flag checker has ended, or will
@@ -384,6 +385,40 @@ theorem advance_or_wait (hr : ReachC cfg s) (hne : s.rt ≠ .exited) :
         | stopping f dl => have := hF.stoppingKind .stopFlag (by simp [hst]); simp [Root.kind] at this
         | failed | cancelled | done =>
           exact ha1 ⟨hrt, (anyRootEnded_iff s).mpr ⟨.stopFlag, by simp [hst]⟩⟩
+      · -- an escalated failure: the failing task / the task it escalates to is on its way (`InvT`) — all excluded above
+        have hT := InvT.reachC hr
+        obtain ⟨tf, htf⟩ : ∃ tf, s.tFail = some tf := by
+          cases h' : s.tFail with
+          | none => rw [h'] at h; cases h
+          | some tf => exact ⟨tf, rfl⟩
+        have hsome := hT.whoSome (by rw [htf]; rfl)
+        cases hwho : s.failWho with
+        | none => rw [hwho] at hsome; cases hsome
+        | some x =>
+          cases x with
+          | root r =>
+            rcases hT.whoRoot tf r hrt htf hwho with h1 | ⟨h1, h2, _⟩ | ⟨h1, _⟩ | ⟨h1, h2, h3⟩ | ⟨h1, h2, h3, h4⟩
+            · exact ha1 ⟨hrt, (anyRootEnded_iff s).mpr ⟨r, h1⟩⟩
+            · by_cases hrne : r = .startupCleanup
+              · subst hrne; have := hscLive (by simp [h1]); rw [this] at h2; cases h2
+              · have := (hR r hrne).2 (by simp [h1]); rw [this] at h2; cases h2
+            · by_cases hrne : r = .startupCleanup
+              · subst hrne; rw [hscStop] at h1; cases h1
+              · rw [(hR r hrne).1] at h1; cases h1
+            · subst h1
+              first
+              | (rw [TS.ended_not_live hscE] at h2; cases h2)
+              | (rcases hscQ.2.2 with h' | h' <;> simp [h', scFailPath] at h3)
+            · exact hr4 ⟨by rw [← h1]; exact h2, h4, h3⟩
+          | sub i =>
+            obtain ⟨_, hi, _, hd⟩ := hT.whoSub tf i hrt htf hwho
+            rcases hd with ⟨h1, h2, _, _⟩ | ⟨h1, _⟩ | ⟨h1, hd⟩
+            · rw [hS2 i hi h1] at h2; cases h2
+            · rw [hS1 i hi] at h1; cases h1
+            · rcases hd with ⟨h2, h3, _⟩ | ⟨h2, _⟩ | h2
+              · have := (hR .orchestrator (by decide)).2 (by simp [h2]); rw [this] at h3; cases h3
+              · rw [(hR .orchestrator (by decide)).1] at h2; cases h2
+              · exact ha1 ⟨hrt, (anyRootEnded_iff s).mpr ⟨.orchestrator, h2⟩⟩
     | stoppingRoots => exact absurd (Or.inl hrt) stopping_absurd
     | cStoppingRoots => exact absurd (Or.inr hrt) stopping_absurd
     | stoppingHung => exact absurd (Or.inl hrt) ha5
